@@ -36,6 +36,19 @@ def run_demo(wt, d, crates):
         os.remove(os.path.join(tdir, n + ".rs"))
     return out
 
+def run_dora_demo(wt, d):
+    """demonstrations that are Dora programs with a run.sh (compiles each demo*.dora with both code generators and
+    compares with demo*.expected): builds the toolchain of the worktree incl. the boots self-compile first"""
+    if not os.path.exists(os.path.join(d, "run.sh")):
+        return None
+    b = sh("cargo build --offline -q -p dora -p dora-runtime -p dora-startup 2>&1 | tail -3 && "
+           "./target/debug/dora compile --internal-compile-boots --cannon pkgs/boots/boots.dora -o target/debug/dora-boots-compiler 2>&1 | grep -v 'ld:' | tail -3",
+           cwd=wt)
+    r = sh("sh %s %s 2>&1 | tail -30" % (os.path.join(d, "run.sh"), wt))
+    r2 = sh("sh %s %s >/dev/null 2>&1; echo $?" % (os.path.join(d, "run.sh"), wt))
+    return {"run_sh_exit": r2.stdout.strip(), "tail": [l for l in r.stdout.splitlines() if "MISMATCH" in l or "OK" in l][:8]}
+
+
 def main():
     d = os.path.abspath(sys.argv[1])
     wt = sys.argv[sys.argv.index("--worktree") + 1] if "--worktree" in sys.argv else "/tmp/confirm-wt"
@@ -48,6 +61,7 @@ def main():
     crates, files = crate_of(patch)
     res["files"] = files
     demo_without = run_demo(wt, d, crates)
+    dora_without = run_dora_demo(wt, d)
     r = sh("git -C %s apply --check %s && git -C %s apply %s" % (wt, patch, wt, patch))
     res["applies"] = r.returncode == 0
     if r.returncode == 0:
@@ -58,7 +72,11 @@ def main():
         res["suite"] = m.group(0) if m else n.stdout[-300:]
         res["suite_s"] = round(time.time() - t)
         demo_with = run_demo(wt, d, crates)
-        if demo_with is not None:
+        dora_with = run_dora_demo(wt, d)
+        if dora_with is not None:
+            res["demo_with_change"] = dora_with
+            res["demo_without_change"] = dora_without
+        elif demo_with is not None:
             res["demo_with_change"] = demo_with
             res["demo_without_change"] = demo_without
         else:
